@@ -24,12 +24,15 @@ CONSTANTS Start,        \* start non-terminal of this configuration
           Fuel,         \* budget
           Quarantine,   \* production labels excluded from this enumeration
           Only,         \* if non-empty: a derivation must use at least one of these labels
+          Offsets,      \* set of naturals: rotation of the literal pools.  The i-th literal of a sentence is entry
+                        \* (i + offset) of its pool; with Offsets = 0..(longest pool - 1) every entry of every pool
+                        \* stands in every literal position of every sentence (the "sweep" configurations)
           Allow,        \* if non-empty: the only costly (cost > 0) productions that may be used - a "shape" configuration
                         \* that spends its fuel on one corner of the grammar
           Emit
 
-VARIABLES stack, out, vals, fuel, nid, nlit, labs, gl
-vars == <<stack, out, vals, fuel, nid, nlit, labs, gl>>
+VARIABLES stack, out, vals, fuel, nid, nlit, labs, gl, off
+vars == <<stack, out, vals, fuel, nid, nlit, labs, gl, off>>
 
 ---------------------------------------------------------------------------
 (* Deterministic part of a step: shift terminals, name identifiers, pick literals round-robin, reduce.
@@ -43,12 +46,12 @@ Run(c) ==
   ELSE LET s == Head(c.stack)
            rest == Tail(c.stack)
        IN  CASE s[1] = "t"   -> Run([c EXCEPT !.stack = rest, !.g = FALSE, !.out = Append(c.out, <<s[2], s[3], s[4] \/ c.g>>)])
-             [] s[1] = "id"  -> LET name == "x" \o ToString(c.nid + 1)
+             [] s[1] = "id"  -> LET name == IdNames[c.nid + 1]
                                 IN  Run([c EXCEPT !.stack = rest, !.nid = c.nid + 1, !.g = FALSE,
                                                   !.out = Append(c.out, <<"id", name, s[2] \/ c.g>>),
                                                   !.vals = Append(c.vals, V(name))])
              [] s[1] = "lit" -> LET pool == LitPool[s[2]]
-                                    l == pool[(c.nlit % Len(pool)) + 1]
+                                    l == pool[((c.nlit + c.off) % Len(pool)) + 1]
                                 IN  Run([c EXCEPT !.stack = rest, !.nlit = c.nlit + 1, !.g = FALSE,
                                                   !.out = Append(c.out, <<"lit", l[1], s[3] \/ c.g>>),
                                                   !.vals = Append(c.vals, l[2]),
@@ -62,10 +65,12 @@ Run(c) ==
              [] s[1] = "p"   -> Run([c EXCEPT !.stack = rest, !.vals = Append(c.vals, s[2])])
              [] OTHER        -> c      \* non-terminal on top: a choice is needed
 
-Cfg == [stack |-> stack, out |-> out, vals |-> vals, nid |-> nid, nlit |-> nlit, g |-> gl, lits |-> {}]
+Cfg == [stack |-> stack, out |-> out, vals |-> vals, nid |-> nid, nlit |-> nlit, g |-> gl, lits |-> {}, off |-> off]
 
-Init == LET c == Run([stack |-> <<N(Start)>>, out |-> <<>>, vals |-> <<>>, nid |-> 0, nlit |-> 0, g |-> FALSE, lits |-> {}])
-        IN  /\ stack = c.stack /\ out = c.out /\ vals = c.vals /\ nid = c.nid /\ nlit = c.nlit /\ gl = c.g
+Init == \E o \in Offsets :
+        LET c == Run([stack |-> <<N(Start)>>, out |-> <<>>, vals |-> <<>>, nid |-> 0, nlit |-> 0, g |-> FALSE, lits |-> {}, off |-> o])
+        IN  /\ off = o
+            /\ stack = c.stack /\ out = c.out /\ vals = c.vals /\ nid = c.nid /\ nlit = c.nlit /\ gl = c.g
             /\ fuel = Fuel /\ labs = c.lits
 
 (* One step: expand the non-terminal on top by any production the budget allows, then run on *)
@@ -79,6 +84,7 @@ Expand ==
            IN  /\ stack' = c.stack /\ out' = c.out /\ vals' = c.vals /\ nid' = c.nid /\ nlit' = c.nlit /\ gl' = c.g
                /\ labs' = (IF p.l = "" THEN labs ELSE labs \cup {p.l}) \cup c.lits
         /\ fuel' = fuel - p.c
+        /\ off' = off
 
 Next == Expand
 Spec == Init /\ [][Next]_vars
@@ -121,6 +127,9 @@ PrecedenceShape == Done => ShapeOK(vals[1])
 
 ---------------------------------------------------------------------------
 Interesting == Only = {} \/ labs \cap Only # {}
-Replay == [R |-> "g", start |-> Start, toks |-> out, val |-> vals[1], labs |-> labs]
+Replay == [R |-> "g", start |-> Start, toks |-> out, val |-> vals[1], labs |-> labs, off |-> off]
+\* the spellings of every literal pool, printed once per run: the checks require that each was exercised
+PoolNames == [k \in DOMAIN LitPool |-> [i \in 1..Len(LitPool[k]) |-> LitPool[k][i][1]]]
+ASSUME PrintT(ToJson([R |-> "pool", pool |-> PoolNames]))
 EmitReplay == (Emit /\ Done /\ Interesting) => PrintT(ToJson(Replay))
 =============================================================================
